@@ -137,7 +137,16 @@ both_families! {
 fn stem_pair(o: Opt) -> BoxedStrategy<(bool, Vec<String>, bool, Vec<String>)> {
 	// (value abs, value segs, prefix abs, prefix segs)
 	let seg = || prop_oneof![6 => gen::plain_segment(o), 2 => select(vec!["".to_string(), ".".to_string(), "..".to_string()]), 1 => gen::segment(o)];
-	(any::<bool>(), 0u8..10, vec(seg(), 0..4), vec(seg(), 0..4), vec(seg(), 0..3), vec(gen::variant(), 0..2), 0u8..10)
+	let rest_s = prop_oneof![
+		9 => vec(seg(), 0..4),
+		// beyond the 16-segment inline buffer, possibly starting with an empty or colon segment
+		1 => (vec(seg(), 0..3), 14usize..40).prop_map(|(mut h, n)| { for i in 0..n { h.push(format!("r{i}")) } h }),
+	];
+	let stem_s = prop_oneof![
+		9 => vec(seg(), 0..4),
+		1 => (vec(seg(), 0..3), 14usize..40).prop_map(|(mut h, n)| { for i in 0..n { h.push(format!("s{i}")) } h }),
+	];
+	(any::<bool>(), 0u8..10, stem_s, rest_s, vec(seg(), 0..3), vec(gen::variant(), 0..2), 0u8..10)
 		.prop_map(|(abs, absd, stem, rest, extra, vars, mode)| {
 			let mut v = stem.clone();
 			v.extend(rest);
